@@ -102,7 +102,7 @@ def run(ctx):
         exts = ['.fasta', '.fa.gz', '.fna', '.fasta.gz', '.fa', '.fasta', '.ffn.gz']
         for i, q in enumerate(pool):
             nm = q['name'] + exts[i % len(exts)]
-            files[i] = (nm, W.write_fasta(os.path.join(qdir, nm), q['contigs'], gz=nm.endswith('.gz'), width=[60, 7, 1000][i % 3], eol=['\n', '\r\n'][i % 2]))
+            files[i] = (nm, W.write_fasta(os.path.join(qdir, nm), q['contigs'], gz=nm.endswith('.gz'), members=[1, 3, 2][i % 3], width=[60, 7, 1000][i % 3], eol=['\n', '\r\n'][i % 2]))
         # different genomes whose labels collide (same base name in two directories; x.fa vs x.fasta)
         for nm, qi in (('run1/sample.fasta', 0), ('run2/sample.fasta', 4), ('x.fa', 2), ('x.fasta', 3)):
             files[len(files)] = (nm, W.write_fasta(os.path.join(qdir, nm), pool[qi]['contigs']))
@@ -191,7 +191,7 @@ def run(ctx):
         ctx.rule_parts.append('[query-batches] a synthetic database (9 genomes, signature file order != genome order, identical reference genomes, '
                               'threshold-less and unreportable taxa, names with commas/quotes/newlines) and 7 query genomes (one under two names): every '
                               'single genome, ordered pairs and triples, the full batch in both orders, repeated inputs, different genomes with colliding labels x channel {positional, list file + '
-                              'base dir, pre-computed signature file} x gzip / FASTA extensions x -c {1,2,5,16} x progress on/off x format {csv, json, '
+                              'base dir, pre-computed signature file} x gzip (single- and multi-member) / FASTA extensions x -c {1,2,5,16} x progress on/off x format {csv, json, '
                               'archive} through the real command line, plus query_parse with chunk sizes {1,2,3,None,1000} and thread/process pools; '
                               'every row is recomputed by TLC from the sequences of that genome alone; non-trivial = batch of >= 2')
         ctx.exhaustive_all = False
